@@ -27,9 +27,21 @@ LRS = ("1/2", "1/4", "1/8", "1/16", "1/10")
 REL = 5e-6          # relative tolerance (float32 arithmetic of the engine: ~84 unit roundoffs)
 # float32's squared-underflow range: below about 1e-19 the squares of the entries leave the normal range, torch.norm loses
 # precision and from ~1e-23 returns 0; then `tiny` dominates the normalisation and the update of the real code is off by
-# ~1/tiny (review finding R2-C16-underflow, corpus/C16/r2-adversary-gradient-underflow.json).  Tensors whose largest entry is
+# ~1/tiny (known finding F22, corpus/C16/f22-adversary-gradient-underflow.json).  Tensors whose largest entry is
 # below UNDERFLOW (but not all zero) are NOT judged (tagged); 1e-18 keeps the largest square 85x above the smallest normal.
 UNDERFLOW = 1e-18   # was 1e-15
+# F22 (known finding): the EXACT float32 criterion for `torch.norm(t) == 0` on a non-zero tensor.  torch accumulates the
+# squares in float32; x*x rounds to 0 iff x^2 <= 2^-150 (half the smallest subnormal 2^-149, ties to even), i.e. iff
+# |x| <= 2^-75 = 2.6469779601696886e-23.  Measured with torch 2.14 on this machine: norm([2^-75]*k) == 0.0 for k = 1, 8, 100 and
+# a 2x2 matrix; norm([nextafter(2^-75, 1)]) = 3.7e-23 > 0.  Then `unit = dW_LA / (0 + tiny)` and the update is off by ~1/tiny.
+# Tensors of THIS shape are judged (the failure is matched by `known`); tensors in the gradual-underflow band above it
+# (2^-75 < max|entry| < UNDERFLOW: the norm is positive but inaccurate) stay not judged, as before.
+F22_MAX = F(1, 2 ** 75)
+
+
+def f22_shape(b):
+    """b: the exact values (Fractions) of one float32 dLA/dW tensor: non-zero, but its float32 sum of squares is exactly 0"""
+    return any(x != 0 for x in b) and max(abs(x) for x in b) <= F22_MAX
 
 
 # sha256 of the definitions (comments / blank lines stripped) of the two generated files the whole-step model is built
@@ -230,7 +242,9 @@ class CHECK(Check):
             "players given as constructor callable / 'SGD' keyword / instance, lr in {1/2,1/4,1/8,1/16,1/10}; 1-2 measured "
             "batches of 1..16 pool rows after an optional warm-up step; every batch has the pool's type_of_target (else "
             "fairlearn rejects it). distinct = distinct case; non-trivial = some predictor tensor has dLA/dW != 0. "
-            "Gradient tensors with 0 < max |entry| < 1e-18 (float32 squared-underflow range) are not judged (tagged). "
+            "Gradient tensors with 2^-75 < max |entry| < 1e-18 (float32 gradual-underflow band: torch.norm inaccurate) are not judged "
+            "(tagged); non-zero tensors with every |entry| <= 2^-75 (torch.norm exactly 0: known finding F22) ARE judged but only "
+            "the corpus case produces them. "
             "Not stated before (review R2): features are k/4 with |k| <= 8; continuous targets k/4 with |k| <= 12 and at least one "
             "non-integer; module-mode parameters are initialised to k/16 with |k| <= 16; list-mode models ALWAYS get a warm-up step "
             "(their modules exist only after the first call) and never an optimiser instance; the 'SGD' keyword forces lr_a = lr_p; "
@@ -259,7 +273,8 @@ class CHECK(Check):
                "copies / loop / step) and autograd dependencies by data flow (`.detach()` cuts); PyTorch accumulates into .grad")
     assumptions = ("plain SGD optimisers (no momentum / weight decay)", "float32 models on CPU, one thread",
                    "batches have the same type_of_target as the first call's data",
-                   "gradient tensors are not in float32's squared-underflow range (0 < max|entry| < 1e-18), else not judged")
+                   "gradient tensors are not in float32's gradual-underflow band (2^-75 < max|entry| < 1e-18), else not judged; "
+                   "the exact-zero-norm shape (every |entry| <= 2^-75, not all 0) is judged and is known finding F22")
 
     # ------------------------------------------------------------------------------------------ generation
     def _hidden(self, rng, tier, bias_multi):
@@ -643,8 +658,8 @@ class CHECK(Check):
                 W0 = [F(v) for v in t["W0"]]
                 bb = sum(x * x for x in b)
                 maxb = max(abs(x) for x in b)
-                if bb != 0 and float(maxb) < UNDERFLOW:
-                    continue  # float32 squared-underflow range: not judged (tagged in signature)
+                if bb != 0 and float(maxb) < UNDERFLOW and not f22_shape(b):
+                    continue  # float32 gradual-underflow band: not judged (tagged in signature); the F22 shape IS judged
                 # ---- oracle: the documented update, exactly ----
                 if bb == 0:
                     g = list(a)
@@ -764,8 +779,8 @@ class CHECK(Check):
             for i in range(len(W)):
                 a, b = [F(v) for v in g["a"][i]], [F(v) for v in g["b"][i]]
                 bb = sum(x * x for x in b)
-                if bb != 0 and float(max(abs(x) for x in b)) < UNDERFLOW:
-                    return probs      # float32 squared-underflow range: not judged (tagged)
+                if bb != 0 and float(max(abs(x) for x in b)) < UNDERFLOW and not f22_shape(b):
+                    return probs      # float32 gradual-underflow band: not judged (tagged); the F22 shape IS judged
                 if bb == 0:
                     gg = a
                 else:
@@ -801,10 +816,41 @@ class CHECK(Check):
                 probs.append(model_problem(f"advstep.fit gives {mo[1][:120]}, the fold of the documented step gives {want_k} {wantW[:60]} {wantU[:40]}"))
         return probs
 
+    def _f22_tensors(self, case, o):
+        """`where` prefixes (step kind) / True (fit kind) of the dLA/dW tensors of this run that have the F22 shape"""
+        hits = []
+        if case.get("kind") == "fit":
+            for g in o.get("grads", []):
+                for bvals in g["b"]:
+                    if all(v != "nan" for v in bvals) and f22_shape([F(v) for v in bvals]):
+                        hits.append(True)
+            return hits
+        for si, st in enumerate(o.get("steps", [])):
+            for ti, t in enumerate(st["pred"]):
+                if self._finite(t) and f22_shape([F(v) for v in t["b"]]):
+                    hits.append(f"step {si} predictor tensor {ti} shape {t['shape']}")
+        return hits
+
     def known(self, case, problem, entries):
         for e in entries:
             if e.get("match") == problem.relation:
                 return e
+        # F22: float32 norm underflow.  Matched ONLY when the failing tensor itself has the exact shape (non-zero, every
+        # |entry| <= 2^-75) and the failure is of the update rule / orthogonality (for a whole fit: of the fold of steps, with
+        # such a tensor among the recorded gradients).  Any other orthogonality failure stays a VIOLATION.
+        if problem.kind != "property" or problem.relation not in ("C16.orthogonal", "C16.update_rule", "C16.fit_is_fold_of_steps"):
+            return None
+        ents = [e for e in entries if e.get("predicate") == "float32_norm_underflows_to_zero"]
+        if not ents:
+            return None
+        o = self.safe_impl(case)
+        if not isinstance(o, dict) or "crash" in o:
+            return None
+        hits = self._f22_tensors(case, o)
+        if case.get("kind") == "fit":
+            return ents[0] if hits else None
+        if any(problem.msg.startswith(w + ":") for w in hits):
+            return ents[0]
         return None
 
     def signature(self, case, o):
@@ -823,7 +869,7 @@ class CHECK(Check):
                 f"ylabels={case['ystyle']}" if case["ykind"] != "continuous" else "ylabels=float"]
         nontriv = False
         if "steps" in o:
-            multi = multi2 = zero = under = False
+            multi = multi2 = zero = under = f22 = False
             for st in o["steps"]:
                 tags.append("batch_rows=" + ("1" if len(st["rows"]) == 1 else "2-4" if len(st["rows"]) <= 4 else "5-16"))
                 for t in st["pred"]:
@@ -832,6 +878,8 @@ class CHECK(Check):
                     mb = max([abs(float(F(v))) for v in fin] or [0.0])
                     if mb == 0:
                         zero = True
+                    elif mb <= float(F22_MAX):
+                        f22 = True
                     elif mb < UNDERFLOW:
                         under = True
                     else:
@@ -847,6 +895,8 @@ class CHECK(Check):
                 tags.append("some_dLA/dW_zero")
             if under:
                 tags.append("some_dLA/dW_underflow_not_judged")
+            if f22:
+                tags.append("some_dLA/dW_norm_underflows_to_zero(F22,judged)")
         else:
             tags.append("crash")
         return proto_key(case), nontriv, tags
